@@ -118,7 +118,7 @@ theorem remapKind_flat_spec (fuel id : Nat) (s s' : AggState) (si : Interface) (
           si.exports E' := hall.mono (fun a b ⟨h1, h2, h3⟩ => ⟨h1, h2, h3⟩)
       obtain ⟨hun, hlf⟩ := unfoldItems_of_all2 hall' G hG
       refine ⟨by rw [hst2.ifaces], ?_⟩
-      refine ⟨⟨?_, ?_⟩, hst2.ext.trans hext3, ⟨E', ?_, ⟨hlf, ⟨s2.agg.types.defined.length + 2, ?_⟩⟩⟩, hst2.worlds, hst2.modules, hst2.chk, hst2.cfg,
+      refine ⟨⟨?_, ?_, hI2.shape.insert _ _ (fun d hd => by simp [GTy.mk'] at hd) (fun f hf => by simp [GTy.mk'] at hf)⟩, hst2.ext.trans hext3, ⟨E', ?_, ⟨hlf, ⟨s2.agg.types.defined.length + 2, ?_⟩⟩⟩, hst2.worlds, hst2.modules, hst2.chk, hst2.cfg,
         hst2.imports, hst2.imap, hst2.redirects, ?_⟩
       · -- RemapSound: the new key is an interface key
         intro C hC
